@@ -11,7 +11,7 @@ struct SubRenderer { width: usize, options: RenderOptions }
 
 spec fn monus(a: usize, b: usize) -> int { if a >= b { a - b } else { 0 } }
 spec fn wm_spec(width: usize, allow: bool, prefix: usize, min_width: usize) -> Option<int> {
-    if monus(width, prefix) < min_width && !allow { None }
+    if (monus(width, prefix) < min_width || prefix > width) && !allow { None }
     else if monus(width, prefix) >= min_width { Some(monus(width, prefix)) } else { Some(min_width as int) }
 }
 
@@ -20,15 +20,17 @@ impl SubRenderer {
 //@sub /-> Result<usize>/ ==> -> (r: Result<usize>)
 //@auto C01
     fn width_minus(&self, prefix_len: usize, min_width: usize) -> (r: Result<usize>)
-        ensures                                                                     //@w
-            self.options.allow_width_overflow ==> r.is_ok(),                        //@w @C11 #overflow_always_ok
-            r.is_err() <==> (monus(self.width, prefix_len) < min_width && !self.options.allow_width_overflow), //@w @C11 @C02 #err_iff_too_narrow
+        ensures //@w
+            self.options.allow_width_overflow ==> r.is_ok(), //@w @C11 #overflow_always_ok
+            r.is_err() <==> ((monus(self.width, prefix_len) < min_width || prefix_len > self.width) && !self.options.allow_width_overflow), //@w @C11 @C02 #err_iff_too_narrow
             r matches Ok(w) ==> w == (if monus(self.width, prefix_len) >= min_width { monus(self.width, prefix_len) } else { min_width as int }), //@w @C02 @C07 @C11 @C16 #value
-            r matches Ok(w) ==> (w >= min_width),                                   //@w @C11 #at_least_min
-            r matches Ok(w) ==> (!self.options.allow_width_overflow && self.width >= prefix_len ==> w + prefix_len <= self.width), //@w @C02 #fits_parent
+            r matches Ok(w) ==> (w >= min_width), //@w @C11 #at_least_min
+            // prefix and content together fit the parent whenever overflow is not allowed (C02; until D26 this held only when the prefix itself fitted) //@w
+            r matches Ok(w) ==> (!self.options.allow_width_overflow ==> w + prefix_len <= self.width), //@w @C02 @C07 #fits_parent
     {
         let new_width = self.width.saturating_sub(prefix_len);
-        if new_width < min_width && !self.options.allow_width_overflow {
+        // The prefix itself has to fit as well, even if the content needs no room.
+        if (new_width < min_width || prefix_len > self.width) && !self.options.allow_width_overflow {
             return Err(TooNarrow);
         }
         Ok(new_width.max(min_width))
@@ -41,6 +43,12 @@ proof fn lemma_overflow_noop(width: usize, prefix: usize, min_width: usize)
     ensures wm_spec(width, false, prefix, min_width).is_some() ==>
             wm_spec(width, true, prefix, min_width) == wm_spec(width, false, prefix, min_width),  //@w @C11 #overflow_noop
             wm_spec(width, true, prefix, min_width).is_some(),                                    //@w @C11
+{}
+
+// C02 / C07: whenever overflow is not allowed, the nested renderer together with its prefix fits the parent: the precondition under which
+// append_subrender keeps every line within the width (unit SR) holds at every call site whose width comes from width_minus (unit RN)
+proof fn lemma_prefix_and_content_fit(width: usize, prefix: usize, min_width: usize)
+    ensures wm_spec(width, false, prefix, min_width) matches Some(w) ==> w + prefix <= width,  //@w @C02 @C07 #prefix_and_content_fit_parent
 {}
 
 //@export-end
